@@ -342,6 +342,7 @@ func runC03(c *Ctx, w *World, r *Report) {
 		})
 		r.Check(bad == "", "R-NARROWSHL", n, w.Pos(fn.Pos()), bad)
 	}
+	reportContractShl32(w, r, hl)
 	// ---- R-SIB
 	{
 		a := guardedSummary(w, fns["bmtree.PathToIndex"], 0)
@@ -437,4 +438,66 @@ func init() {
 		Quick:   []Config{cfgDefault, cfgDebug}, Thorough: []Config{cfgDefault, cfgDebug, cfg386, cfgDbg386},
 		Run: runC03,
 	})
+}
+
+// reportContractShl32: contract code must not compute 2^k in a 32-bit type with a variable k (k reaches 31 at height 30).
+func reportContractShl32(w *World, r *Report, fns []*ssa.Function) {
+	r.Rule("R-SHL32", "contract code never shifts a value of a type of at most 32 bits left by a non-constant amount: `1 << uint(h+1)` in int32 is negative at height 30, so the contract panics on valid input in a -tags debug build only")
+	for _, f := range fns {
+		bad := ""
+		eachInstr(f, func(ins ssa.Instruction) {
+			bo, ok := ins.(*ssa.BinOp)
+			if !ok || bo.Op != token.SHL || !isIntType(bo.Type()) || w.Sizes.Sizeof(bo.Type()) > 4 {
+				return
+			}
+			if _, isC := constInt64(stripConv(bo.Y)); isC {
+				return
+			}
+			bad = fmt.Sprintf("a %s is shifted left by a variable amount at %s", bo.Type(), w.InstrPos(ins))
+		})
+		r.Check(bad == "", "R-SHL32", w.FuncName(f), w.Pos(f.Pos()), bad)
+	}
+}
+
+// contractFuncsOf: closures passed to must.Be.OK in the given functions plus everything they call inside the module.
+func contractFuncsOf(w *World, roots ...*ssa.Function) []*ssa.Function {
+	helpers := map[*ssa.Function]bool{}
+	var visit func(f *ssa.Function)
+	visit = func(f *ssa.Function) {
+		if helpers[f] || f.Blocks == nil || !w.InModule(f) {
+			return
+		}
+		helpers[f] = true
+		eachInstr(f, func(ins ssa.Instruction) {
+			if call, ok := ins.(*ssa.Call); ok {
+				if cal := call.Common().StaticCallee(); cal != nil {
+					visit(cal)
+				}
+			}
+		})
+	}
+	for _, fn := range roots {
+		if fn == nil {
+			continue
+		}
+		eachInstr(fn, func(ins ssa.Instruction) {
+			call, ok := ins.(*ssa.Call)
+			if !ok {
+				return
+			}
+			if name, ok := isMustCall(call); ok && name == "OK" {
+				for _, a := range call.Common().Args {
+					if mc, ok := a.(*ssa.MakeClosure); ok {
+						visit(mc.Fn.(*ssa.Function))
+					}
+				}
+			}
+		})
+	}
+	var out []*ssa.Function
+	for f := range helpers {
+		out = append(out, f)
+	}
+	sort.Slice(out, func(i, j int) bool { return w.FuncName(out[i]) < w.FuncName(out[j]) })
+	return out
 }
